@@ -4,8 +4,10 @@ package c13
 
 import (
 	"fmt"
+	"runtime"
 	"sort"
 	"sync"
+	"sync/atomic"
 	"testing"
 
 	kafka "github.com/segmentio/kafka-go"
@@ -445,9 +447,70 @@ type lbCase struct {
 	Goroutines int   `json:"goroutines"` // >1: concurrent mode with equal sizes
 	EqualSize  int   `json:"equal_size"`
 	PerG       int   `json:"per_goroutine"`
+	// Rounds > 0: N goroutines leave a barrier together and call Balance once each, Rounds times, with equal sizes.
+	Rounds int `json:"rounds,omitempty"`
+}
+
+// spinBarrier releases n spinning goroutines within nanoseconds of each other.
+type spinBarrier struct {
+	n     int32
+	count atomic.Int32
+	gen   atomic.Int32
+}
+
+func (b *spinBarrier) wait() {
+	g := b.gen.Load()
+	if b.count.Add(1) == b.n {
+		b.count.Store(0)
+		b.gen.Add(1)
+		return
+	}
+	for i := 0; b.gen.Load() == g; i++ {
+		if i%1024 == 1023 {
+			runtime.Gosched()
+		}
+	}
+}
+
+// runLeastBytesRounds: from a balanced state (all counters equal) and with equal message sizes, N calls pick N distinct
+// partitions in every sequential order (a call makes its partition non-minimal until all the others have caught up), so
+// N concurrent calls must do so as well if Balance is atomic.
+func runLeastBytesRounds(tb ev.TB, c lbCase) {
+	lb := &kafka.LeastBytes{}
+	ps := parts(c.N)
+	msg := kafka.Message{Value: make([]byte, c.EqualSize)}
+	res := make([][]int, c.N)
+	in, out := &spinBarrier{n: int32(c.N)}, &spinBarrier{n: int32(c.N)}
+	var wg sync.WaitGroup
+	for g := 0; g < c.N; g++ {
+		wg.Add(1)
+		go func(g int) {
+			defer wg.Done()
+			for r := 0; r < c.Rounds; r++ {
+				in.wait()
+				res[g] = append(res[g], lb.Balance(msg, ps...))
+				out.wait()
+			}
+		}(g)
+	}
+	wg.Wait()
+	for r := 0; r < c.Rounds; r++ {
+		seen := map[int]int{}
+		for g := 0; g < c.N; g++ {
+			seen[res[g][r]]++
+		}
+		if len(seen) != c.N {
+			ev.Fail(tb, "lb", "lb/concurrent-double-pick", c, "LeastBytes: %d concurrent calls with equal sizes from a balanced state (round %d) chose %v (partition -> calls): some partition was chosen twice, which no sequential order of the calls produces", c.N, r, seen)
+			return
+		}
+	}
 }
 
 func runLeastBytes(tb ev.TB, c lbCase) {
+	if c.Rounds > 0 {
+		runLeastBytesRounds(tb, c)
+		return
+	}
 	lb := &kafka.LeastBytes{}
 	ps := parts(c.N)
 	if c.Goroutines <= 1 {
@@ -526,7 +589,13 @@ func runLeastBytes(tb ev.TB, c lbCase) {
 func TestLeastBytes(t *testing.T) {
 	rapid.Check(t, func(t *rapid.T) {
 		c := lbCase{N: rapid.IntRange(1, 12).Draw(t, "n")}
-		if rapid.IntRange(0, 3).Draw(t, "mode") == 0 {
+		if m := rapid.IntRange(0, 39).Draw(t, "roundsMode"); m == 0 {
+			c.N = rapid.IntRange(2, 8).Draw(t, "nRounds")
+			c.Goroutines = c.N
+			c.EqualSize = rapid.IntRange(1, 64).Draw(t, "size")
+			c.Rounds = rapid.SampledFrom([]int{100, 300, 1000}).Draw(t, "rounds")
+			c.PerG = c.Rounds
+		} else if rapid.IntRange(0, 3).Draw(t, "mode") == 0 {
 			c.Goroutines = rapid.IntRange(2, 8).Draw(t, "goroutines")
 			c.EqualSize = rapid.IntRange(1, 64).Draw(t, "size")
 			c.PerG = rapid.IntRange(1, 60).Draw(t, "perG")
